@@ -131,6 +131,16 @@ func c01BlobDataFunc(p *core.Program, m *pbfModel) *FuncInfo {
 					}
 				}
 			}
+			if call, ok := x.(*ast.CallExpr); ok {
+				if fn := callee(m.info, call); fn != nil && c01IsGenerated(c01RecvTypeOf(fn), "Blob") {
+					switch fn.Name() {
+					case "GetRaw":
+						raw = true
+					case "GetZlibData":
+						zl = true
+					}
+				}
+			}
 			return true
 		})
 		if raw && zl {
